@@ -182,6 +182,16 @@ def cases(draw, base):
         case["q"] = draw(S.q1d(2, 4, lo=-2.7, hi=-0.5))
     else:
         case["qx"], case["qy"] = draw(S.q2d(2, 3, lo=-2.3, hi=-0.7))
+        slds = [p.id for p in info.parameters.kernel_parameters if p.type == "sld" and p.length == 1]
+        if slds and not pd and draw(st.integers(0, 2)) == 0:
+            # polarised beam on the derived model: the magnetic companions of the (untouched) SLDs keep their names
+            mag = {}
+            for s_ in draw(st.lists(st.sampled_from(slds), min_size=1, max_size=len(slds), unique=True)):
+                mag.update({s_ + "_M0": S.sig(draw(st.floats(0.5, 4)), 3), s_ + "_mtheta": draw(st.sampled_from([0.0, 40.0, 90.0])),
+                            s_ + "_mphi": draw(st.sampled_from([0.0, 25.0, 70.0]))})
+            mag.update(up_frac_i=draw(st.sampled_from([0.0, 0.3, 1.0])), up_frac_f=draw(st.sampled_from([0.0, 0.6, 1.0])),
+                       up_theta=draw(st.sampled_from([90.0, 35.0])), up_phi=draw(st.sampled_from([0.0, 50.0])))
+            case["mag"] = mag
     return case
 
 
@@ -350,6 +360,14 @@ def check_reparam(case, rec):
         msg = c01.close(got_I - case["background"], base_I - case["background"], sc, 1e-10)
         if msg:
             rec.fail("base-at-T(x):" + dim, "%s: %s" % (base, msg))
+        if case.get("mag"):
+            rec.cls("magnetic")
+            got_m = np.asarray(direct_model.call_kernel(kernel, dict(req, **case["mag"]), cutoff=0.0), float)
+            base_m = np.asarray(direct_model.call_kernel(bk, dict(bv, **case["mag"]), cutoff=0.0), float)
+            scm = max(sc, float(np.nanmax(np.abs(base_m - case["background"]))) if np.any(np.isfinite(base_m)) else 0.0)
+            msg = c01.close(got_m - case["background"], base_m - case["background"], scm, 1e-9)
+            if msg:
+                rec.fail("base-at-T(x):2d:magnetic", "%s with %r: %s" % (base, case["mag"], msg))
 
 
 CHECKS = {"reparam": check_reparam}
